@@ -23,6 +23,8 @@ def run(ctx: Ctx) -> None:
     tableau.rule_rowcol(ctx, [CLIFF, gatesum.TRANSFORM, STABF])
     tableau.rule_bounds(ctx, [CLIFF, STABF])
     tableau.rule_rowops(ctx)
+    tableau.rule_phase_combine(ctx)
+    tableau.rule_measure_rowset(ctx)
     gatesum.rule_derived_gates(ctx)
     rule_wrappers(ctx)
     shapes.rule_removal_order(ctx)
@@ -48,6 +50,8 @@ def rule_wrappers(ctx: Ctx) -> None:
 
 
 KNOCKOUTS = [
+    Knockout("measure-rowset-restricted", CLIFF, sub_once("            non_zero_x = np.delete(non_zero_x, i)\n", "            non_zero_x = non_zero_x[non_zero_x >= n_qubits][1:]\n"), "measure.rowset", "row set"),
+    Knockout("measure-outcome-parity", CLIFF, sub_once("        outcome = r_vector[2 * n_qubits]", "        outcome = int(np.sum(tableau.phase[non_zero_x[non_zero_x < n_qubits] + n_qubits]) % 2)"), "own.rowops", "arithmetic on phase"),
     Knockout("removal-ascending", CLIFF, sub_once("    removal = sorted(total - keep, reverse=True)", "    removal = sorted(total - keep)"), "order.removal", "partial_trace"),
     Knockout("C3-external-nqubits", CLIFF,
              sub_once("    return insert_qubit(tableau, tableau.n_qubits)", "    tableau.n_qubits += 1\n    return insert_qubit(tableau, tableau.n_qubits - 1)"),
